@@ -23,3 +23,10 @@ package bundler
 //@   loop 3 invariant covered: forall k int :: 0 <= k && k <= rangeindex ==> isProtected(b, sourceAbsPaths, allReachableFiles[k])
 //@   loop 3 invariant -1 <= rangeindex && rangeindex < len(allReachableFiles) || (len(allReachableFiles) == 0 && rangeindex == -1)
 //@   loop 3 exit all-inputs-protected: forall k int :: 0 <= k && k < len(allReachableFiles) ==> isProtected(b, sourceAbsPaths, allReachableFiles[k])
+
+// ----------------------------------------------------------------------------------------------
+// C18: the name of a "file"/"copy" loader output gets a content hash exactly when the template that
+// actually names it asks for one: the template tested for the [hash] placeholder is the same value
+// (asset template, or entry template for a copied entry point) that is substituted to produce the name.
+//@ flow hash-decision-template C18: func=(*scanner).processScannedFiles ; in=bundler ; site=call HasPlaceholder ; argpath=0:phi:template
+//@ flow name-template C18: func=(*scanner).processScannedFiles ; in=bundler ; site=call SubstituteTemplate ; argpath=0:phi:template
